@@ -13,6 +13,17 @@ requested, thread alive, is_closed, queue size) is compared with the model (corr
 checks the property statement on what the implementation did: every call returned or raised, the thread has exited and
 the session reports closed when close/logout returns, later calls raise StateError.
 
+Executor-level calls (`run_exec`, scenarios of type `exec`): `SyncExecutor.execute` / `execute_sync` with a coroutine /
+callable that itself RAISES (TimeoutError under all its aliases, subclasses of it, CancelledError, StateError, EndOfQueue,
+ValueError, other Exceptions, BaseException subclasses) or returns, with and without a caller-side timeout.  The future
+handed to `_wait_for` is scripted from outside: each `result(timeout)` poll (one pass of the slice loop) is made to
+complete within the slice / expire / expire with the future completing between the expiry and the `done()` check / find
+the executor stopped — so the coroutine ends at every phase relative to the slices, deterministically; further scenarios
+run in real time (`asyncio.wait_for`, `asyncio.timeout`, a bounded `receive_msg` on a connected session whose peer stays
+silent, `stop()` from another thread).  Correspondence: outcome class, identity of the exception and number of polls
+against `execute` / `executeSync` / `passesUsed` of the model (`sync.exec`); oracle: the call came back within the
+watchdog and with the coroutine's result, the underlying error, or a timeout / state error.
+
 OS scheduling and fairness are not modelled: the harness *is* the scheduler, the model allows every interleaving.
 """
 import json
@@ -158,6 +169,8 @@ class W:
     close_released = None
     lock = None
     orig = {}
+    exec_ctl = None      # ExecCtl of the running `exec` scenario
+    exec_hangs = 0       # exec scenarios of this worker that ended at the watchdog
 
 
 def cur_tid():
@@ -290,6 +303,9 @@ def install_patches():
         return W.orig['join'](self)
 
     def rcts(coro, loop):
+        ctl = W.exec_ctl
+        if ctl is not None and loop is ctl.loop and threading.current_thread() is ctl.caller:
+            return ctl.submit(coro, loop)
         tid = cur_tid()
         if tid is None or tid == 'L' or W.bridge is None or loop is not W.bridge._event_loop:
             return W.orig['rcts'](coro, loop)
@@ -784,6 +800,316 @@ def run_connect(server, sc):
     return res
 
 
+# ---------------------------------------------------------------------------------------------------------------------
+#  executor-level calls whose coroutine / callable raises
+# ---------------------------------------------------------------------------------------------------------------------
+class _Abandon(BaseException):
+    """ends a caller thread that is still polling after the scenario was judged (never seen by the oracle)"""
+
+
+EXC_KINDS = ['TimeoutError', 'asyncio.TimeoutError', 'futures.TimeoutError', 'socket.timeout', 'TimeoutSub', 'OSError.ETIMEDOUT',
+             'asyncio.CancelledError', 'futures.CancelledError', 'StateError', 'EndOfQueue', 'ValueError', 'KeyError',
+             'ConnectionRefusedError', 'BaseSub']
+# the class the model gives each of them (Model/SyncFacade.lean `Exc`)
+EXC_MODEL = {'TimeoutError': 'timeout', 'asyncio.TimeoutError': 'timeout', 'futures.TimeoutError': 'timeout', 'socket.timeout': 'timeout',
+             'TimeoutSub': 'timeoutSub', 'OSError.ETIMEDOUT': 'timeout', 'asyncio.CancelledError': 'cancelled',
+             'futures.CancelledError': 'cancelled', 'StateError': 'state', 'EndOfQueue': 'eoq', 'ValueError': 'value',
+             'KeyError': 'other', 'ConnectionRefusedError': 'other', 'BaseSub': 'base', None: 'returned'}
+
+
+class TimeoutSub(TimeoutError):
+    pass
+
+
+class BaseSub(BaseException):
+    pass
+
+
+def make_exc(kind):
+    import asyncio
+    import concurrent.futures
+    import errno
+    import socket
+    from nasdaq_protocols.common import StateError, EndOfQueue
+    return {'TimeoutError': lambda: TimeoutError('own'), 'asyncio.TimeoutError': lambda: asyncio.TimeoutError('own'),
+            'futures.TimeoutError': lambda: concurrent.futures.TimeoutError('own'), 'socket.timeout': lambda: socket.timeout('own'),
+            'TimeoutSub': lambda: TimeoutSub('own'), 'OSError.ETIMEDOUT': lambda: OSError(errno.ETIMEDOUT, 'own'),
+            'asyncio.CancelledError': lambda: asyncio.CancelledError(), 'futures.CancelledError': lambda: concurrent.futures.CancelledError(),
+            'StateError': lambda: StateError('own'), 'EndOfQueue': lambda: EndOfQueue(), 'ValueError': lambda: ValueError('own'),
+            'KeyError': lambda: KeyError('own'), 'ConnectionRefusedError': lambda: ConnectionRefusedError('own'),
+            'BaseSub': lambda: BaseSub('own')}[kind]()
+
+
+def exc_model_class(e, own):
+    """class of a raised exception in the model's vocabulary (no reference to what was expected)"""
+    import asyncio
+    import concurrent.futures
+    from nasdaq_protocols.common import StateError, EndOfQueue
+    if isinstance(e, TimeoutError):
+        if not own:
+            return 'expiry' if type(e) is TimeoutError else 'expiry-subclass'
+        return 'timeout' if type(e) is TimeoutError else 'timeoutSub'
+    if isinstance(e, (asyncio.CancelledError, concurrent.futures.CancelledError)):
+        return 'cancelled'
+    if isinstance(e, StateError):
+        return 'state'
+    if isinstance(e, EndOfQueue):
+        return 'eoq'
+    if isinstance(e, ValueError):
+        return 'value'
+    if isinstance(e, Exception):
+        return 'other'
+    return 'base'
+
+
+class ExecCtl:
+    """the scripted future of one `exec` scenario: what every `result(timeout)` poll of the call finds"""
+
+    def __init__(self, bridge, script, hold, realtime=False):
+        self.bridge, self.loop = bridge, bridge._event_loop
+        self.script, self.hold, self.realtime = list(script), hold, realtime
+        self.caller = None
+        self.fut = None
+        self.release_ev = None
+        self.released = False
+        self.polls = 0             # result() calls
+        self.polls_after_done = 0  # … made although an earlier poll had already found the future done
+        self.seen_done = False
+        self.dones = []            # what future.done() answered, in order
+        self.cancel_called = False
+        self.abandon = False
+        self.stopped = False
+        self.log = []
+
+    def submit(self, coro, loop):
+        import asyncio
+        self.release_ev = asyncio.Event()
+        ev = self.release_ev
+
+        async def gated():
+            await ev.wait()
+            return await coro
+        self.fut = W.orig['rcts'](gated(), loop)
+        return ScriptedFuture(self)
+
+    def release(self):
+        if not self.released:
+            self.released = True
+            try:
+                self.loop.call_soon_threadsafe(self.release_ev.set)
+            except RuntimeError:
+                pass
+
+    def wait_done(self, t=2.0):
+        end = time.time() + t
+        while not self.fut.done() and time.time() < end:
+            time.sleep(0.0002)
+        return self.fut.done()
+
+    def stop(self):
+        if not self.stopped:
+            self.stopped = True
+            self.bridge.stop()         # loop.call_soon_threadsafe(loop.stop) + join: the thread is gone afterwards
+
+
+class ScriptedFuture:
+    def __init__(self, ctl):
+        self.ctl = ctl
+
+    def result(self, timeout=None):
+        import concurrent.futures
+        c = self.ctl
+        if c.abandon:
+            raise _Abandon()
+        c.polls += 1
+        if c.seen_done:
+            c.polls_after_done += 1
+        act = c.script.pop(0) if c.script else 'real'
+        if timeout is None and act in ('E', 'R', 'S', 'e'):
+            act = 'real'            # a wait without a timeout cannot be made to expire
+        c.log.append(act)
+        try:
+            if act == 'C':          # the coroutine ends within this slice
+                c.release()
+                c.wait_done()
+                return c.fut.result(timeout=timeout)
+            if act == 'CS':         # … and the executor is stopped right behind it
+                c.release()
+                c.wait_done()
+                c.stop()
+                return c.fut.result(timeout=timeout)
+            if act == 'E':          # the slice expires (virtual time), the coroutine has not ended
+                raise concurrent.futures.TimeoutError()
+            if act == 'e':          # the slice expires in real time
+                return c.fut.result(timeout=timeout)
+            if act == 'R':          # the slice expires; the coroutine ends before the handler looks at future.done()
+                c.release()
+                c.wait_done()
+                raise concurrent.futures.TimeoutError()
+            if act == 'S':          # the executor is stopped under the call; the slice expires
+                c.stop()
+                raise concurrent.futures.TimeoutError()
+            if not c.hold:
+                c.release()
+                if not c.realtime and not c.stopped:
+                    c.wait_done()       # scripted scenario: "ends within this slice" must not depend on the machine's load
+            return c.fut.result(timeout=timeout)
+        finally:
+            if c.fut.done():
+                c.seen_done = True
+
+    def done(self):
+        v = self.ctl.fut.done()
+        self.ctl.dones.append(v)
+        if v:
+            self.ctl.seen_done = True
+        return v
+
+    def cancel(self):
+        self.ctl.cancel_called = True
+        return self.ctl.fut.cancel()
+
+    def __getattr__(self, n):
+        return getattr(self.ctl.fut, n)
+
+
+def run_exec(server, sc):
+    """one call on a fresh SyncExecutor.  sc: api execute|execute_sync, exc (EXC_KINDS or None = returns), arg ok|bad,
+    timeout None|float (execute only), script [C|CS|E|e|R|S …], hold (never let the coroutine end by itself),
+    dead (executor stopped before the call), source raise|wait_for|timeout_cm|recv_bounded|sleep_raise, delay, stop_at"""
+    import asyncio
+    from nasdaq_protocols.common import SyncExecutor
+    res = {'id': sc.get('id'), 'exec': True}
+    source = sc.get('source', 'raise')
+    client = None
+    if source == 'recv_bounded':
+        from nasdaq_protocols import soup
+        server.mode = 'accept'
+        client = soup.connect(('127.0.0.1', server.port), 'u', 'p', 'sess', client_heartbeat_interval=1000, server_heartbeat_interval=1000)
+        bridge = client.bridge
+    else:
+        bridge = SyncExecutor(f"c20x{sc.get('id')}")
+    ctl = W.exec_ctl = ExecCtl(bridge, sc.get('script', []), sc.get('hold', False), bool(sc.get('realtime')))
+    own = {'exc': None}
+    delay = sc.get('delay', 0)
+
+    def finish():
+        if sc.get('exc') is None:
+            return 'value'
+        own['exc'] = make_exc(sc['exc'])
+        raise own['exc']
+
+    async def coro_raise():
+        if delay:
+            await asyncio.sleep(delay)
+        return finish()
+
+    async def coro_wait_for():
+        return await asyncio.wait_for(asyncio.sleep(60), delay)          # ends with asyncio's own TimeoutError
+
+    async def coro_timeout_cm():
+        async with asyncio.timeout(delay):
+            await asyncio.sleep(60)
+
+    def callable_raise():
+        return finish()
+
+    box = {}
+
+    def call():
+        t0 = time.monotonic()
+        try:
+            if sc['api'] == 'execute':
+                if sc.get('arg') == 'bad':
+                    arg = callable_raise
+                elif source == 'wait_for':
+                    arg = coro_wait_for()
+                elif source == 'timeout_cm':
+                    arg = coro_timeout_cm()
+                elif source == 'recv_bounded':
+                    arg = asyncio.wait_for(client.session.receive_msg(), delay)
+                else:
+                    arg = coro_raise()
+                box['arg'] = arg
+                if 'timeout' in sc and sc['timeout'] is not None:
+                    box['r'] = ('returned', bridge.execute(arg, timeout=sc['timeout']))
+                else:
+                    box['r'] = ('returned', bridge.execute(arg))
+            else:
+                box['r'] = ('returned', bridge.execute_sync('not callable' if sc.get('arg') == 'bad' else callable_raise))
+        except _Abandon:
+            box['abandoned'] = True
+        except BaseException as e:  # noqa: whatever the (possibly modified) library raises is the observation
+            box['r'] = ('raised', e)
+        box['elapsed'] = time.monotonic() - t0
+    if sc.get('dead'):
+        ctl.stop()
+    th = threading.Thread(target=call, daemon=True, name='c20-exec-caller')
+    ctl.caller = th
+    stopper = None
+    if sc.get('stop_at') is not None:
+        stopper = threading.Timer(sc['stop_at'], ctl.stop)
+        stopper.daemon = True
+        stopper.start()
+    th.start()
+    watchdog = sc.get('watchdog', 2.0)
+    if W.exec_hangs >= 2:       # this tree hangs in this family: the remaining scenarios need not wait as long
+        tmo = sc.get('timeout') or 0
+        watchdog = min(watchdog, 0.6 + delay + (tmo if tmo < 100 else 0))
+    th.join(watchdog)
+    res['hung'] = th.is_alive()
+    res['polls'], res['polls_after_done'], res['log'] = ctl.polls, ctl.polls_after_done, ctl.log[:40]
+    res['future_done'] = bool(ctl.fut is not None and ctl.fut.done())
+    res['cancel_called'] = ctl.cancel_called
+    if res['hung']:
+        W.exec_hangs += 1
+        ctl.abandon = True
+        th.join(1.0)
+    elif 'r' in box:
+        kind, v = box['r']
+        res['elapsed'] = round(box['elapsed'], 4)
+        if kind == 'returned':
+            res['outcome'] = 'returned'
+            res['value_ok'] = (v == 'value')
+            res['value'] = repr(v)[:60]
+        else:
+            # asyncio hands an exception of exactly the class TimeoutError / CancelledError to the concurrent future as a new
+            # instance with the same args (`_convert_future_exc`): the args carry the mark of the coroutine's own exception
+            o = own['exc']
+            is_own = o is not None and (v is o or (type(v) is type(o) and v.args == o.args and 'own' in [str(x) for x in v.args]))
+            if source in ('wait_for', 'timeout_cm', 'recv_bounded'):
+                is_own = res['future_done'] and not ctl.fut.cancelled() and ctl.fut.exception() is v
+            res['outcome'] = 'raised:' + exc_model_class(v, is_own)
+            res['raised'] = type(v).__name__
+            res['own'] = is_own
+    else:
+        res['outcome'] = 'abandoned'
+    res['thread_alive_after'] = bridge._thread.is_alive()
+    # ---- cleanup
+    if stopper is not None:
+        stopper.cancel()
+    a = box.get('arg')
+    if a is not None and hasattr(a, 'close'):
+        try:
+            a.close()           # a coroutine that was never handed to the loop (dead executor, bad call)
+        except Exception:  # noqa
+            pass
+    W.exec_ctl = None
+
+    def cleanup():
+        try:
+            if client is not None:
+                client.close()
+            elif bridge._thread.is_alive():
+                bridge.stop()
+        except BaseException:  # noqa
+            pass
+    ct = threading.Thread(target=cleanup, daemon=True)
+    ct.start()
+    ct.join(3.0)
+    return res
+
+
 def worker_main():
     sys.path.insert(0, HERE)
     import common
@@ -801,7 +1127,12 @@ def worker_main():
             continue
         sc = json.loads(line)
         try:
-            r = run_connect(server, sc) if sc.get('type') == 'connect' else run_scenario(server, sc)
+            if sc.get('type') == 'exec':
+                r = run_exec(server, sc)
+            elif sc.get('type') == 'connect':
+                r = run_connect(server, sc)
+            else:
+                r = run_scenario(server, sc)
         except BaseException as e:  # noqa
             import traceback
             r = {'id': sc.get('id'), 'fatal': 'harness exception: ' + repr(e), 'tb': traceback.format_exc()[-1500:]}
@@ -878,6 +1209,180 @@ class Pool:
         for t in ths:
             t.join()
         return [results.get(k, {'process_timeout': True}) for k in range(len(scenarios))]
+
+
+# ---------------------------------------------------------------------------------------------------------------------
+#  executor-level calls: generation, model request, oracle, correspondence
+# ---------------------------------------------------------------------------------------------------------------------
+EXEC_SCRIPTS = [['C'], ['E', 'C'], ['E', 'E', 'E', 'C'], ['R'], ['E', 'R'], ['E', 'E', 'R'], ['S'], ['E', 'S'], ['E', 'E', 'E', 'S'],
+                ['CS'], ['E', 'CS'], []]
+
+
+def gen_exec(rng, tier):
+    """every exception class x every phase script x {execute without / with a far / with an expired caller-side timeout,
+    execute_sync}; real-time scenarios; dead executor; bad argument"""
+    out = []
+    for exc in EXC_KINDS + [None]:
+        for script in EXEC_SCRIPTS:
+            for api, tmo in (('execute', None), ('execute', 1000.0), ('execute', 0), ('execute_sync', None)):
+                sc = {'type': 'exec', 'api': api, 'exc': exc, 'script': list(script)}
+                if tmo is not None:
+                    sc['timeout'] = tmo
+                out.append(sc)
+        for api in ('execute', 'execute_sync'):
+            out.append({'type': 'exec', 'api': api, 'exc': exc, 'script': [], 'dead': True})
+            out.append({'type': 'exec', 'api': api, 'exc': exc, 'script': ['C'], 'arg': 'bad'})
+        # a caller-side timeout that really runs out while the coroutine is pending / that the coroutine beats
+        out.append({'type': 'exec', 'api': 'execute', 'exc': exc, 'script': ['e', 'e'], 'hold': True, 'timeout': 0.08, 'realtime': True})
+        out.append({'type': 'exec', 'api': 'execute', 'exc': exc, 'script': ['e', 'C'], 'timeout': 0.3, 'realtime': True})
+    # ---- real time, nothing scripted: the coroutine ends by itself at a phase of the 50 ms slices
+    n_rt = 40 if tier == 'quick' else 400
+    main = ['TimeoutError', 'TimeoutSub', 'asyncio.CancelledError', 'StateError', 'EndOfQueue', 'ValueError', 'BaseSub', None]
+    for _ in range(n_rt):
+        d = rng.choice([0.0, 0.01, 0.045, 0.05, 0.055, 0.1, 0.12, 0.21])
+        sc = {'type': 'exec', 'api': 'execute', 'exc': rng.choice(main), 'script': [], 'source': 'raise', 'delay': d, 'realtime': True}
+        r = rng.random()
+        if r < 0.35:
+            sc['timeout'] = rng.choice([0.03, 0.05, 0.08, 0.13, 5.0])
+        elif r < 0.5:
+            sc['stop_at'] = rng.choice([0.0, 0.02, 0.05, 0.07, 0.15])
+        out.append(sc)
+    for d in ([0.03, 0.12] if tier == 'quick' else [0.0, 0.01, 0.03, 0.05, 0.12, 0.26]):
+        for src in ('wait_for', 'timeout_cm', 'recv_bounded'):
+            for tmo in (None, 2.0):
+                sc = {'type': 'exec', 'api': 'execute', 'exc': 'asyncio.TimeoutError', 'script': [], 'source': src, 'delay': d, 'realtime': True}
+                if tmo is not None:
+                    sc['timeout'] = tmo
+                out.append(sc)
+    return out
+
+
+def exec_model_request(sc):
+    """the passes the script forces, for `sync.exec`; None when the scenario is not scripted pass by pass"""
+    if sc.get('realtime'):
+        return None
+    alive = not sc.get('dead')
+    arg_ok = sc.get('arg') != 'bad'
+    dl = 1 if sc.get('timeout') == 0 else 0
+    passes, done = [], False
+    for act in list(sc.get('script', [])) + ['real']:
+        a = 1 if alive else 0
+        if act in ('C', 'real'):
+            passes.append([1, 1, dl, a, 1])
+            done = True
+            break
+        if act == 'CS':
+            passes.append([1, 1, dl, 0, 1])
+            done = True
+            break
+        if act == 'E':
+            passes.append([0, 0, dl, a, 0])
+        elif act == 'R':
+            passes.append([0, 1, dl, a, 1])
+            done = True
+            break
+        elif act == 'S':
+            alive = False
+            passes.append([0, 0, dl, 0, 0])
+        if dl or not alive:
+            break
+    ps = '(' + ' '.join('(' + ' '.join(map(str, q)) + ')' for q in passes) + ')'
+    return (f"sync.exec {sc['api']} {0 if sc.get('dead') else 1} {1 if arg_ok else 0} {EXC_MODEL[sc.get('exc')]} {ps} {1 if done else 0}")
+
+
+def exec_desc(sc):
+    what = 'returns a value' if sc.get('exc') is None else f"raises {sc['exc']}"
+    src = {'wait_for': 'asyncio.wait_for(sleep(60), %s)' % sc.get('delay'), 'timeout_cm': 'asyncio.timeout(%s) around sleep(60)' % sc.get('delay'),
+           'recv_bounded': 'asyncio.wait_for(session.receive_msg(), %s) on a connected session, peer silent' % sc.get('delay')}.get(sc.get('source'))
+    body = src if src else (('a coroutine that ' if sc['api'] == 'execute' else 'a callable that ') + what +
+                            (f" after {sc['delay']} s" if sc.get('delay') else ''))
+    extra = []
+    if 'timeout' in sc:
+        extra.append(f"timeout={sc['timeout']}")
+    if sc.get('script'):
+        extra.append('polls: ' + ' '.join(sc['script']))
+    if sc.get('hold'):
+        extra.append('coroutine never ends by itself')
+    if sc.get('dead'):
+        extra.append('executor stopped before the call')
+    if sc.get('arg') == 'bad':
+        extra.append('argument is not a coroutine / callable')
+    if sc.get('stop_at') is not None:
+        extra.append(f"stop() from another thread after {sc['stop_at']} s")
+    return f"{sc['api']}({body})" + (' [' + '; '.join(extra) + ']' if extra else '')
+
+
+def exec_findings(sc, r):
+    """the statement on one executor-level call: it came back, and with its result, the underlying error, or a timeout /
+    state error (ValueError for an argument that is no coroutine / callable)"""
+    base = {'exec': {k: v for k, v in sc.items() if k not in ('id',)}}
+    if r.get('process_timeout'):
+        return [('the scenario process itself did not finish within its hard timeout (hang): ' + exec_desc(sc), dict(base, kind='exec-process-timeout'))]
+    if r.get('fatal'):
+        return [('scenario could not be run: ' + r['fatal'], dict(base, kind='fatal'))]
+    if r.get('hung'):
+        return [(f"{exec_desc(sc)} neither returned nor raised within the watchdog: {r.get('polls')} polls of future.result(), "
+                 f"{r.get('polls_after_done')} of them after the future was found done (future done: {r.get('future_done')})",
+                 dict(base, kind='exec-hang'))]
+    out = []
+    o = r.get('outcome', '?')
+    under = EXC_MODEL[sc.get('exc')]
+    if sc.get('source') in ('wait_for', 'timeout_cm', 'recv_bounded'):
+        under = 'timeout'
+    if o == 'returned':
+        if sc.get('arg') == 'bad' or sc.get('dead'):
+            out.append((f"{exec_desc(sc)} returned {r.get('value')}", dict(base, kind='exec-returned-without-running')))
+        elif under != 'returned':
+            out.append((f"{exec_desc(sc)} returned {r.get('value')} although the coroutine ended with an exception", dict(base, kind='exec-error-swallowed')))
+        elif not r.get('value_ok'):
+            out.append((f"{exec_desc(sc)} returned {r.get('value')} instead of the coroutine's value", dict(base, kind='exec-wrong-value')))
+    elif o.startswith('raised:'):
+        cls = o[7:]
+        allowed = {under, 'expiry', 'expiry-subclass', 'timeout', 'timeoutSub', 'state'}
+        if sc.get('arg') == 'bad':
+            allowed.add('value')
+        if cls not in allowed:
+            out.append((f"{exec_desc(sc)} raised {r.get('raised')}: neither the underlying error nor a timeout / state error",
+                        dict(base, kind='exec-wrong-error')))
+    else:
+        out.append((f"{exec_desc(sc)}: no outcome recorded ({o})", dict(base, kind='exec-no-outcome')))
+    return out
+
+
+def exec_correspondence(ctx, sc, r, ans):
+    if ans is None or r.get('process_timeout') or r.get('fatal') or r.get('hung'):
+        return
+    base = {'exec': {k: v for k, v in sc.items() if k != 'id'}, 'kind': 'exec-correspondence'}
+    if not ans.startswith('ok '):
+        ctx.disagree(f'model answered {ans[:80]} for {exec_desc(sc)}', base)
+        return
+    want, passes = ans[3:].split(' passes=')
+    got = r.get('outcome')
+    if got == 'raised:expiry-subclass':
+        got = 'raised:expiry?'
+    if got != want:
+        ctx.disagree(f"{exec_desc(sc)}: model {want} vs implementation {r.get('outcome')} ({r.get('raised')}, own={r.get('own')})", base)
+    elif int(passes) != r.get('polls'):
+        ctx.disagree(f"{exec_desc(sc)}: model leaves the slice loop after {passes} passes, implementation polled future.result() {r.get('polls')} times", base)
+
+
+def shrink_exec(sc, kind):
+    """simpler calls of the same family that still fail the same way"""
+    keep = {k: sc[k] for k in ('type', 'api', 'exc', 'source', 'delay') if k in sc}
+    cands = []
+    if not sc.get('realtime'):
+        for api in (['execute', sc['api']] if sc['api'] != 'execute' else ['execute']):
+            for script in (['C'], ['E', 'C']):
+                cands.append(dict(keep, api=api, script=script))
+    pool = Pool(1)
+    for c in cands:
+        if c == {k: v for k, v in sc.items() if k != 'id'}:
+            return None
+        r = pool.map([dict(c, id=0)])[0]
+        for w, rep in exec_findings(c, r):
+            if rep['kind'] == kind:
+                return (w, rep)
+    return None
 
 
 def cfg_sx(cfg):
@@ -1121,7 +1626,13 @@ def run(ctx):
     ctx.cov['rule'] = ('configuration = 1..3 caller threads x programs of 1..3 calls over {recv, send, sendUnseq, close, logout, execTimed} '
                        'x 0..3 peer events {reply, eos, disc}; for each, maximal interleavings generated by the model (one unrestricted, '
                        'one preferring steps outside the known-defect window) and forced on the real classes statement by statement; '
-                       'distinct = distinct (configuration, interleaving); plus the Lean witness runs, the corpus and soup.connect outcomes')
+                       'distinct = distinct (configuration, interleaving); plus the Lean witness runs, the corpus and soup.connect outcomes; '
+                       'plus executor-level calls: execute / execute_sync of a coroutine / callable that returns or raises one of 14 exception '
+                       'classes (TimeoutError under 4 aliases, subclass, ETIMEDOUT, both CancelledErrors, StateError, EndOfQueue, ValueError, '
+                       'KeyError, ConnectionRefusedError, BaseException subclass) x 12 phase scripts over the polls of the slice loop (ends within '
+                       'slice k / between the expiry of slice k and the done() check / executor stopped under the call at slice k / stopped right '
+                       'behind the completion) x {no, far, expired caller-side timeout}, dead executor, bad argument, and real-time calls '
+                       '(asyncio.wait_for, asyncio.timeout, bounded receive_msg on a connected session with a silent peer, stop() from another thread)')
     ctx.notes.append('C20: OS thread scheduling and fairness are not modelled — the harness forces each interleaving with gates; '
                      'the model allows every interleaving and assumes no fairness')
     ctx.notes.append('C20: one coroutine = one atomic loop step in the model; of asyncio\'s FIFO ready queue only "submitted before '
@@ -1158,11 +1669,16 @@ def run(ctx):
         s['id'] = k
     conn = [{'type': 'connect', 'mode': m, 'id': f'connect-{m}'} for m in ('accepted', 'rejected', 'peerClosed', 'connRefused',
                                                                              'acceptedThenClosed')]
+    execs = gen_exec(rng, ctx.tier)
+    for k, e in enumerate(execs):
+        e['id'] = f'exec-{k}'
     nworkers = min(12, max(2, (os.cpu_count() or 4) - 2))
     pool = Pool(nworkers)
     payload = [{'id': s['id'], 'cfg': s['cfg'], 'labels': s['labels'], 'expect': s.get('expect'),
-                'grace': 1.0 if quick else 2.0} for s in scs] + conn
+                'grace': 1.0 if quick else 2.0} for s in scs] + conn + execs
     results = pool.map(payload)
+    exec_results = results[len(scs) + len(conn):]
+    results = results[:len(scs) + len(conn)]
     # a step that merely took too long on a loaded machine looks like "thread did not reach its next statement": scenarios
     # with a model/implementation difference are run a second time in a fresh process; a real difference repeats
     again = [k for k, r in enumerate(results[:len(scs)]) if r.get('disagree') or r.get('process_timeout') or r.get('fatal')][:40]
@@ -1202,6 +1718,8 @@ def run(ctx):
                 ctx.violations[0] = (small[0] + '  [minimised from ' + cfg_sx(rep['cfg']) + ']', small[1])
         except Exception as e:  # noqa
             ctx.notes.append('C20: shrinking failed: ' + repr(e)[:200])
+    # ---- executor-level calls whose coroutine / callable raises
+    run_execs(ctx, execs, exec_results, have_model)
     # ---- soup.connect
     model_conn = {}
     if have_model:
@@ -1226,6 +1744,42 @@ def run(ctx):
             got = f"ok raised={'1' if raised else '0'} alive={'1' if r['executor_alive'] else '0'}"
             if got != model_conn[c['mode']]:
                 ctx.disagree(f"connect {c['mode']}: model {model_conn[c['mode']]} vs implementation {got} ({r['raised']})", rep)
+
+
+def run_execs(ctx, execs, exec_results, have_model):
+    reqs = [exec_model_request(e) for e in execs]
+    answers = [None] * len(execs)
+    if have_model:
+        idx = [k for k, q in enumerate(reqs) if q is not None]
+        try:
+            for k, a in zip(idx, ctx.driver.ask([reqs[k] for k in idx])):
+                answers[k] = a
+        except Exception as e:  # noqa
+            ctx.disagree('model driver failed on sync.exec: ' + repr(e)[:300], {'kind': 'driver'})
+    # a poll count that differs only under load: re-run once, alone
+    first_bad = None
+    for e, r, a in zip(execs, exec_results, answers):
+        ctx.case('exec ' + json.dumps({k: v for k, v in e.items() if k not in ('id', 'type')}, sort_keys=True), nontrivial=True, sample_every=97)
+        ctx.count('exec:' + e['api'] + (':timeout' if 'timeout' in e else ''))
+        ctx.count('exec-coroutine:' + ('returns' if e.get('exc') is None else e['exc']))
+        ctx.count('exec-phase:' + ('real-time' if e.get('realtime') else ('dead' if e.get('dead') else ('bad-arg' if e.get('arg') == 'bad' else
+                                                                                                    ' '.join(e.get('script', [])) or 'at-once'))))
+        ctx.count('exec-outcome:' + ('hang' if r.get('hung') or r.get('process_timeout') else str(r.get('outcome'))))
+        found = exec_findings(e, r)
+        for what, rep in found:
+            ctx.count('oracle:' + rep['kind'])
+            if first_bad is None and not ctx.violations:
+                first_bad = (e, rep['kind'])
+            ctx.violation(what, rep)
+        if not found:
+            exec_correspondence(ctx, e, r, a)
+    if first_bad is not None and ctx.violations and ctx.violations[0][1].get('exec') is not None:
+        try:
+            small = shrink_exec(first_bad[0], first_bad[1])
+            if small:
+                ctx.violations[0] = (small[0] + '  [minimised from ' + exec_desc(first_bad[0]) + ']', small[1])
+        except Exception as e:  # noqa
+            ctx.notes.append('C20: shrinking of the executor-level call failed: ' + repr(e)[:200])
 
 
 def _install_known(ctx):
@@ -1254,6 +1808,17 @@ def replay(ctx, path):
         res = Pool(1).map([{'type': 'connect', 'mode': rep['mode'], 'id': 0}])[0]
         print('implementation:', res)
         ctx.case('connect ' + rep['mode'])
+        return
+    if rep.get('exec') is not None:
+        e = dict(rep['exec'], id='exec-0', type='exec')
+        res = Pool(1).map([e])[0]
+        print('call          :', exec_desc(e))
+        q = exec_model_request(e)
+        ans = ctx.driver.ask([q])[0] if (q is not None and ctx.driver.available) else None
+        print('model         :', ans)
+        print('implementation:', {k: v for k, v in res.items() if k != 'id'})
+        run_execs(ctx, [e], [res], ctx.driver.available)
+        ctx.case('replay-marker')
         return
     sc = {'cfg': rep['cfg'], 'labels': rep['labels'], 'id': 0}
     if ctx.driver.available:
